@@ -65,6 +65,10 @@ def surrounding(rng, tag, rich, same_names=()):
         ["class ZqOther_{0}(object):".format(tag), "    zq_attr_{0} = 3".format(tag), "    def f_target(self, zq_x=1):", "        return zq_x",
          "    def set_cli_args(self, argument_parser):", "        return argument_parser"],
         ["class ZqOuter_{0}(object):".format(tag), "    class ZqInner_{0}(object):".format(tag), "        zq_deep_{0} = 1".format(tag)],
+        # same simple names as the targets, but under a different qualified path
+        ["class ZqHolder_{0}(object):".format(tag), "    class ConfigClass(object):", "        zq_nested_same_name_{0} = 1".format(tag),
+         "    f_target = {0!r}".format("zq_attr_named_like_target_" + tag), "    set_cli_args: int = 7"],
+        ["__all__ = ['ConfigClass', 'f_target', 'set_cli_args', 'zq_{0}']".format(tag)],
     ]
     k_before = rng.randint(0, 3)
     k_after = rng.randint(0, 3)
